@@ -658,7 +658,7 @@ func applyFault(sc *Scenario, class string, r *Rng, shape int) (errLike string) 
 		// late in the simulated period)
 		from := sc.Start.Zeit() + r.Range(20, 60)
 		to := from + r.Range(0, 20)
-		switch shape % 3 {
+		switch shape % 4 {
 		case 1:
 			to = from
 		case 2:
@@ -667,9 +667,14 @@ func applyFault(sc *Scenario, class string, r *Rng, shape int) (errLike string) 
 				from = sc.Start.Zeit() + 20
 			}
 			to = from + r.Range(0, 6)
+		case 3:
+			// the simulation runs to 31 December and the last day(s) of that year are missing; the series goes on in January
+			sc.End = Date{sc.End.Y, 12, 31}
+			to = sc.End.Zeit()
+			from = to - r.Range(0, 3)
 		}
 		fy := DateOfZeit(from).Y
-		if hi := (Date{fy, 12, 30}).Zeit(); to > hi {
+		if hi := (Date{fy, 12, 30}).Zeit(); to > hi && shape%4 != 3 {
 			from, to = hi-10, hi
 		}
 		var keep []WeatherDay
